@@ -231,6 +231,12 @@ def run(tier):
                         wire.append(u)
                         logical.append((None, u[1]))
                     wire_reqs.append((wire, logical))
+            # long option lists: k unknown options in front of (or around) recognised ones; the request stays below 512 bytes
+            for k in (7, 13, 14, 15, 16, 17, 20, 31, 32, 40):
+                many = [(f"u{j}", str(j)) for j in range(k)]
+                tail = [("blksize", "1024"), ("windowsize", "2"), ("tsize", "0")]
+                wire_reqs.append((many + tail, [(None, val) for _, val in many] + tail))
+                wire_reqs.append((many[:k // 2] + tail[:1] + many[k // 2:] + tail[1:], [(None, "x")] * (k // 2) + tail[:1] + [(None, "x")] * (k - k // 2) + tail[1:]))
             # unknown-only requests
             for u in UNKNOWN:
                 wire_reqs.append(([u], [(None, u[1])]))
